@@ -190,6 +190,13 @@ def _check_sample(case, h, idx, matching, init):
         cdeg = Counter({i: d for i, d in enumerate(case["deg_seq"])})
         csize = Counter({s: c for s, c in case["dim_seq"]})
         degrees_binding = matching is True
+    if case["mode"] == "initial" and case["burn_in"] == 0 and case["thin"] == 0:
+        # no chain move has been made: the configuration is the initial one, nothing can have coincided, so the sample
+        # must consist of exactly the initial hyperedges (hence exactly the conditioned degrees and sizes)
+        want = sorted(sorted(tag(n) for n in e) for e in cond_edges)
+        got = sorted(sorted(tag(n) for n in e) for e in edges)
+        if want != got:
+            raise Violation("C16/conditioning/no-move-sample-differs-from-initial", {"initial": short(want, 300), **ctx})
     deg = Counter(n for e in edges for n in e)
     size = Counter(len(e) for e in edges)
     for s, c in size.items():
